@@ -44,6 +44,14 @@ pub enum Edit {
     /// two new files with identical new content, far apart in the walk; during this backup the
     /// shared indexer flushes after every second blob (hook), as it does after 50 000 blobs
     AddTwins,
+    /// a probe whose effect is discarded (the state stays): two new files with identical content
+    /// separated in the walk by `FAR` distinct new files, each filling at least one pack. All
+    /// buffers between the archiver and the indexer are bounded and in order (two `parallel_map`
+    /// windows of 2 x cores each way, rendezvous read-aheads, a writer queue of 1), so the pack of
+    /// the first copy is written *and indexed* before the second copy reaches the packer's last
+    /// filter - on every schedule. A second stored copy here is therefore not the recorded
+    /// in-flight race but a new violation.
+    AddFarTwins,
     /// only the metadata of directory `d` itself changes (its listing, hence its tree, stays)
     TouchDir,
     /// add a file whose bytes equal the serialised tree of directory `d` (default chunker only)
@@ -170,6 +178,9 @@ impl SeqModel for C07 {
             Edit::TouchDir,
             Edit::AddTwins,
         ];
+        if s.n <= 2 {
+            v.push(Edit::AddFarTwins);
+        }
         if s.prev.is_some() {
             v.push(Edit::Revert);
         }
@@ -226,6 +237,14 @@ impl SeqModel for C07 {
                 let content = lcg(5000 + s.n as u64, 700);
                 n.tree.insert(&format!("a/twin{}", s.n), Entry::file(content.clone(), mt));
                 n.tree.insert(&format!("zz/twin{}", s.n), Entry::file(content, mt));
+            }
+            Edit::AddFarTwins => {
+                let content = lcg(7000 + s.n as u64, 700);
+                n.tree.insert(&format!("a/far{}", s.n), Entry::file(content.clone(), mt));
+                for k in 0..FAR {
+                    n.tree.insert(&format!("m/f{k:04}"), Entry::file(lcg(100_000 + (s.n * FAR + k) as u64, 700), mt));
+                }
+                n.tree.insert(&format!("zz/far{}", s.n), Entry::file(content, mt));
             }
             Edit::TouchDir => {
                 if let Some(d) = n.tree.get_mut("d") {
@@ -312,7 +331,7 @@ impl SeqModel for C07 {
         // index files with the pack listing (`to_indexed_ids_checked`): same answers expected
         let repo = if s.n % 2 == 1 { env.open_ids_checked() } else { env.open_ids() }.map_err(|e| ("C07/open".to_string(), e.display_log()))?;
         let label = format!("s{}", s.n);
-        if matches!(a, Edit::AddTwins) && std::env::var("C07_NO_FLUSH").is_err() {
+        if matches!(a, Edit::AddTwins | Edit::AddFarTwins) && std::env::var("C07_NO_FLUSH").is_err() {
             rustic_core::verif::limits::set_indexer_max_count(2);
         }
         let snap = backup_with(&repo, &MemSource::new("r", n.tree.clone()), &label, T0 + 1000 + s.n as i64, &vkit::rep::bopts());
@@ -339,6 +358,12 @@ impl SeqModel for C07 {
             }
         }
         let wd: BTreeSet<String> = written_data.iter().cloned().collect();
+        if wd.len() != written_data.len() && matches!(a, Edit::AddFarTwins) {
+            return Err((
+                "C07/in-run-duplicate-data/first-copy-indexed".into(),
+                format!("edit {a:?}: a data blob was written twice in one run ({} written, {} distinct) although at least {FAR} packs were written and indexed between the two copies", written_data.len(), wd.len()),
+            ));
+        }
         if wd.len() != written_data.len() {
             // Timing dependent in the library (a blob whose pack is still in the writer's queue is not
             // yet known to the packers): recorded where it is seen, without the engine's demand that
@@ -442,10 +467,20 @@ impl SeqModel for C07 {
                 return Err(("C07/typed-identity".into(), "a file equal to a serialised tree did not yield a data blob next to the tree blob with the same id".into()));
             }
         }
+        if matches!(a, Edit::AddFarTwins) {
+            // a probe: the exploration goes on from the state it started in
+            rep.inc("far_twins_probes");
+            return Ok(s.clone());
+        }
         n.last_tree_id = Some(root);
         Ok(n)
     }
 }
+
+/// files between the far twins: more than every bounded buffer between the walk and the indexer
+/// can hold together (2 x (2 x 2 x cores + cores) + read-aheads + writer queue; 16 cores -> ~170)
+const FAR: usize = 400;
+const _: () = assert!(FAR > 0);
 
 /// read a tree blob through the independent decoder
 pub fn read_tree(raw: &RawKey, store: &Store, id: &str) -> Result<serde_json::Value, String> {
@@ -467,7 +502,7 @@ pub fn run(args: &Args, rep: &mut Report) {
     let quick = args.quick();
     let depth = if quick { 3 } else { 4 };
     _ = (Bytes::new(), hex_id, open_json, BTreeMap::<u8, u8>::new());
-    rep.set_meta("bounds", json!(format!("BFS depth {depth} (after an initial backup) over 15 edits (incl. reverting the previous edit, touching a directory, twin files under a mid-run index flush) from 3 base sources with the tiny rabin chunker (64/64/256), depth {} with the default chunker incl. files equal to a serialised tree", depth - 1)));
+    rep.set_meta("bounds", json!(format!("BFS depth {depth} (after an initial backup) over 16 edits (incl. reverting the previous edit, touching a directory, twin files under a mid-run index flush, and - up to the second backup - twins 400 packs apart) from 3 base sources with the tiny rabin chunker (64/64/256), depth {} with the default chunker incl. files equal to a serialised tree", depth - 1)));
     let m = C07 { raw: raw.clone(), tiny: true };
     let m2 = C07 { raw, tiny: false };
     if let Some(p) = &args.replay {
